@@ -131,7 +131,7 @@ def mutate(rnd, prog, lines):
 def run(tier, replay=None):
     quick = tier == 'quick'
     spec = {
-        'own': ['C06', 'C05'],     # 'the caller's own event then completes as if the handler had run synchronously': completion clauses count here too
+        'own': ['C06', 'C05', 'C04'],     # 'the caller's own event then completes as if the handler had run synchronously': value / success / completion clauses count here too
         'families': [
             {'name': 'callwait', 'programs': [fam_callwait(2 if quick else 3)], 'hist_programs': [fam_callwait(2 if quick else 3)],
              'hist_cap_quick': 600},
